@@ -384,6 +384,41 @@ func boundedReads(r *Run, rule string, fns []*ssa.Function) {
 			ok = lengthEstablished(a, in, s, width)
 			r.Check(ok, rule, con, w.InstrPos(in), fmt.Sprintf("%d-byte read of %s needs a dominating length test (len == %d / len >= %d)", width, truncate(s.String(), 100), width, width))
 		})
+		// an index decoded from peer bytes is compared with its bound strictly: idx < n accepts,
+		// idx >= n rejects (idx <= n would admit the one-past-the-end index)
+		a.Instrs(func(in ssa.Instruction) {
+			bo, ok := in.(*ssa.BinOp)
+			if !ok {
+				return
+			}
+			// only where the decoded number is an index: the key-id validity predicates, or a value
+			// that also indexes a slice in this function (a decoded count k may equal its bound)
+			isIdx := fn.Name() == "IsValid" || fn.Name() == "HasSparseKeyID"
+			for _, side := range []ssa.Value{bo.X, bo.Y} {
+				if decodedIndex(side) && usedAsIndex(side) {
+					isIdx = true
+				}
+			}
+			if !isIdx {
+				return
+			}
+			var okOps map[token.Token]bool
+			switch {
+			case decodedIndex(bo.X) && !isConstVal(bo.Y):
+				okOps = map[token.Token]bool{token.LSS: true, token.GEQ: true}
+			case decodedIndex(bo.Y) && !isConstVal(bo.X):
+				okOps = map[token.Token]bool{token.GTR: true, token.LEQ: true}
+			default:
+				return
+			}
+			switch bo.Op {
+			case token.LSS, token.LEQ, token.GTR, token.GEQ:
+			default:
+				return
+			}
+			con := ord.Next(FuncName(fn) + "#decoded-index-bound")
+			r.Check(okOps[bo.Op], rule, con, w.InstrPos(in), "an index decoded from message bytes must be compared strictly with its bound ("+a.sh.Of(bo).String()+")")
+		})
 		// slicing b[:n] / b[n:] with constant n of a parameter-derived slice
 		a.Instrs(func(in ssa.Instruction) {
 			sl, ok := in.(*ssa.Slice)
@@ -667,4 +702,71 @@ func finalizerRule(r *Run, fn *ssa.Function) {
 			r.Check(len(ifs) > 0, "C13.5", con+"("+flag+")", w.InstrPos(m), "merge result flag "+flag+" must be tested")
 		}
 	}
+}
+
+// decodedIndex: v is an integer decoded from bytes by encoding/binary (possibly converted).
+func decodedIndex(v ssa.Value) bool {
+	switch x := v.(type) {
+	case *ssa.Convert:
+		return decodedIndex(x.X)
+	case *ssa.ChangeType:
+		return decodedIndex(x.X)
+	case *ssa.Call:
+		_, n := calleeName(&x.Call)
+		return strings.HasPrefix(n, "binary.bigEndian.Uint") || strings.HasPrefix(n, "binary.littleEndian.Uint")
+	}
+	return false
+}
+
+func isConstVal(v ssa.Value) bool {
+	_, ok := v.(*ssa.Const)
+	return ok
+}
+
+// usedAsIndex: v (or a conversion of it / of its source) is the index of an element access.
+func usedAsIndex(v ssa.Value) bool {
+	seen := map[ssa.Value]bool{}
+	var up func(x ssa.Value) ssa.Value
+	up = func(x ssa.Value) ssa.Value {
+		for {
+			switch y := x.(type) {
+			case *ssa.Convert:
+				x = y.X
+				continue
+			case *ssa.ChangeType:
+				x = y.X
+				continue
+			}
+			return x
+		}
+	}
+	var down func(x ssa.Value) bool
+	down = func(x ssa.Value) bool {
+		if seen[x] || x.Referrers() == nil {
+			return false
+		}
+		seen[x] = true
+		for _, ref := range *x.Referrers() {
+			switch y := ref.(type) {
+			case *ssa.IndexAddr:
+				if y.Index == x {
+					return true
+				}
+			case *ssa.Index:
+				if y.Index == x {
+					return true
+				}
+			case *ssa.Convert:
+				if down(y) {
+					return true
+				}
+			case *ssa.ChangeType:
+				if down(y) {
+					return true
+				}
+			}
+		}
+		return false
+	}
+	return down(up(v))
 }
